@@ -959,23 +959,27 @@ fn run_case(line: &str) -> String {
 const KIB: usize = 1024;
 const MIB: usize = 1024 * 1024;
 
-/// a total frame length straddling the internal buffer sizes
-fn pick_total(rng: &mut Rng, big_left: &mut u32, huge_left: &mut u32, thorough: bool, ws: bool) -> usize {
+/// a frame size straddling the internal buffer sizes: `(n, false)` = total
+/// frame length n, `(n, true)` = body length n (the BufWriter threshold applies
+/// to the single body write)
+fn pick_total(rng: &mut Rng, big_left: &mut u32, huge_left: &mut u32, thorough: bool, ws: bool) -> (usize, bool) {
     let around = |rng: &mut Rng, c: usize| -> usize { let d = match rng.below(4) { 0 => 0i64, 1 => -1, 2 => 1, _ => rng.below(200) as i64 - 100 }; (c as i64 + d).max(48) as usize };
-    match rng.below(100) {
-        0..=39 => 48 + rng.below(400) as usize,
+    let of_body = rng.chance(1, 3);
+    let v = match rng.below(100) {
+        0..=39 => return (48 + rng.below(400) as usize, false),
         40..=54 => around(rng, 8 * KIB),
         55..=64 => around(rng, 16 * KIB),
         65..=72 => around(rng, 64 * KIB),
         73..=80 => around(rng, 212_992),
-        _ if *big_left == 0 => 48 + rng.below(3000) as usize,
+        _ if *big_left == 0 => return (48 + rng.below(3000) as usize, false),
         81..=89 => { *big_left -= 1; around(rng, MIB) }
         _ => {
             *big_left -= 1;
             let c = if thorough && *huge_left > 0 { *huge_left -= 1; *rng.pick(if ws { &[4 * MIB, 16 * MIB][..] } else { &[4 * MIB, 16 * MIB, 32 * MIB][..] }) } else { 4 * MIB };
             around(rng, c)
         }
-    }
+    };
+    (v, of_body)
 }
 
 fn case_line(i: usize, ep: &str, sc: &str, totals: &[Vec<usize>], kinds: &[char], wt: u64, rcv: usize, stall: u64, victim: Option<usize>, abort: u64, vdelay: u64, seed: u64) -> String {
@@ -1021,11 +1025,18 @@ fn gen_cases(seed: u64, thorough: bool) -> Vec<String> {
                 let (mut big_left, mut huge_left) = (if thorough { 3 } else { 2 }, if rep % 2 == 1 { 1 } else { 0 });
                 let totals: Vec<Vec<usize>> = (0..nw).map(|t| {
                     let n = nframes(ep, kinds[t], if nw >= 16 { rng.range(1, 2) } else { rng.range(1, 3) } as usize);
-                    (0..n).map(|_| pick_total(&mut rng, &mut big_left, &mut huge_left, thorough, ws)).collect()
+                    (0..n).map(|i| { let (v, of_body) = pick_total(&mut rng, &mut big_left, &mut huge_left, thorough, ws); if of_body { 48 + qlen(kinds[t], t, i) + v } else { v } }).collect()
                 }).collect();
                 let rcv = if rng.chance(1, 4) { 65536 } else { 0 }; // a slower reader; no stall
                 out.push(case_line(0, ep, "conc", &totals, &kinds, 0, rcv, 0, None, 0, 0, rng.next() & 0xffff_ffff));
             }
+        }
+        // (1') tiny cases: the raw stream is short enough to be handed to the Coq reader as well
+        for ep in eps {
+            let nw = rng.range(1, 3) as usize;
+            let kinds = kinds_for(&mut rng, ep, nw);
+            let totals: Vec<Vec<usize>> = (0..nw).map(|t| (0..nframes(ep, kinds[t], rng.range(1, 2) as usize)).map(|i| 48 + qlen(kinds[t], t, i) + rng.below(60) as usize).collect()).collect();
+            out.push(case_line(0, ep, "conc", &totals, &kinds, 0, 0, 0, None, 0, 0, rng.next() & 0xffff_ffff));
         }
         // (2) stalled peer with a configured write timeout: the victim's frame is cut
         for ep in ["client", "server", "aserver"] {
